@@ -1,5 +1,5 @@
 (* C14 property theorems: statements only, each closed by [exact]; Print Assumptions beneath. *)
-From VF Require Import C14.Spec C14.Model C14.Check C14.ProofsIndex C14.ProofsMain.
+From VF Require Import C14.Spec C14.Model C14.Check C14.BTreeShape C14.ProofsIndex C14.ProofsMain.
 Local Open Scope Z_scope.
 
 (* For every content and EVERY command word, the iterator model (the function the correspondence check
@@ -18,8 +18,20 @@ Proof. exact tree_main. Qed.
 Theorem C14_treeset_cursor : forall t cs,
   model_run (KTreeSet t) cs = map MOut (spec_run (indexed (map fst (elements t))) cs).
 Proof. exact treeset_main. Qed.
+(* B-tree iterator (node path + entry relocated in its node by key search; climbing finds the parent entry by
+   searching the parent for the same key): for every well-formed tree -- BTreeShape.b_ok: every node has at
+   least one entry and either no children or one more child than entries (the empty tree is BNode [] []),
+   height at most depth_fuel = 64, keys of the in-order walk strictly ascending -- and EVERY command word,
+   exactly the outputs of the specification cursor over the in-order sequence; never MPanic. *)
+Theorem C14_btree_cursor : forall r cs, b_ok depth_fuel r = true ->
+  model_run (KBTree r) cs = map MOut (spec_run (b_elements depth_fuel r) cs).
+Proof. exact btree_main. Qed.
 Theorem C14_each_visits_reported : forall k,
-  (match k with KHeap _ | KBTree _ => False | KLinkedKV ks vs => length ks = length vs | _ => True end) ->
+  (match k with
+   | KHeap _ => False
+   | KBTree r => b_ok depth_fuel r = true
+   | KLinkedKV ks vs => length ks = length vs
+   | _ => True end) ->
   model_each k = shape_elements k.
 Proof. exact each_main. Qed.
 Theorem C14_past_end_idempotent : forall s,
@@ -34,7 +46,14 @@ Theorem C14_heap_cursor : forall arr cs,
 Proof. exact heap_main. Qed.
 Theorem C14_heap_each_permutation : forall arr, Permutation (map snd (model_each (KHeap arr))) arr.
 Proof. exact heap_each_perm. Qed.
-(* NOT proved (tie only): the B-tree iterator (needs the key-order invariant: it relocates its entry by key search). *)
+(* the key order is necessary: on a shape whose keys are out of order the key search relocates the wrong entry *)
+Theorem C14_btree_needs_key_order : exists r cs,
+  b_ok depth_fuel r = false /\
+  model_run (KBTree r) cs <> map MOut (spec_run (b_elements depth_fuel r) cs).
+Proof.
+  exists (BNode [(5, 50)] [BNode [(7, 70)] []; BNode [(9, 90)] []]), [Next; Next].
+  split; [reflexivity|]. vm_compute. discriminate.
+Qed.
 
 Example C14_nonvacuous :
   let t := BN (BN BL 1 10 (BN BL 2 20 BL)) 5 50 (BN (BN BL 7 70 BL) 9 90 BL) in
@@ -43,7 +62,22 @@ Example C14_nonvacuous :
    MOut (true, Some (9, 90)); MOut (false, None); MOut (false, None); MOut (false, None); MOut (true, Some (9, 90))].
 Proof. vm_compute. reflexivity. Qed.
 
+(* a three-level B-tree of order 3 meeting the hypotheses of C14_btree_cursor, and a word crossing all levels *)
+Example C14_btree_nonvacuous :
+  let leaf k := BNode [(k, k * 10)] [] in
+  let r := BNode [(8, 80)]
+             [BNode [(4, 40)] [BNode [(2, 20)] [leaf 1; leaf 3]; BNode [(6, 60)] [leaf 5; leaf 7]];
+              BNode [(12, 120)] [BNode [(10, 100)] [leaf 9; leaf 11]; BNode [(14, 140); (16, 160)] [leaf 13; leaf 15; leaf 17]]] in
+  b_ok depth_fuel r = true /\
+  model_run (KBTree r) [Next; Next; Last; Prev; NextTo (PKeyGe 18); Prev; PrevTo (PKeyEq 8); Next; Prev; Prev] =
+  [MOut (true, Some (1, 10)); MOut (true, Some (2, 20)); MOut (true, Some (17, 170)); MOut (true, Some (16, 160));
+   MOut (false, None); MOut (true, Some (17, 170)); MOut (true, Some (8, 80)); MOut (true, Some (9, 90));
+   MOut (true, Some (8, 80)); MOut (true, Some (7, 70))].
+Proof. vm_compute. split; reflexivity. Qed.
+
 Print Assumptions C14_index_cursor.
+Print Assumptions C14_btree_cursor.
+Print Assumptions C14_btree_needs_key_order.
 Print Assumptions C14_linked_cursor.
 Print Assumptions C14_linkedkv_cursor.
 Print Assumptions C14_tree_cursor.
